@@ -66,6 +66,30 @@ def judge_clean(curve, res_y, res_x, a, b, c):
     return out
 
 
+def judge_clean_T(pts, res_y, res_x, lo, hi, allow=2e-6):
+    """Near-collinear inputs (a removable point moved off its chord by a few 1e-6 K): the kept polyline must stay within the
+    tolerance of every original point, measured as the code measures it -- in temperature at the same enthalpy.  pts = [(T, H)].
+    The minimum over all kept segments spanning that enthalpy is taken (lenient where the enthalpy is not monotone)."""
+    import numpy as np
+    ry, rx = np.asarray(res_y, float), np.asarray(res_x, float)
+    if len(ry) < 2:
+        return [("C17.clean_same_function", dict(reason="fewer than two points returned"))]
+    for i in range(lo, hi + 1):
+        T, H = pts[i]
+        best = None
+        for k in range(len(rx) - 1):
+            x1, x2, y1, y2 = rx[k], rx[k + 1], ry[k], ry[k + 1]
+            if min(x1, x2) - 1e-12 <= H <= max(x1, x2) + 1e-12:
+                if x1 == x2:
+                    d = 0.0 if min(y1, y2) <= T <= max(y1, y2) else min(abs(T - y1), abs(T - y2))
+                else:
+                    d = abs(T - (y1 + (y2 - y1) * (H - x1) / (x2 - x1)))
+                best = d if best is None else min(best, d)
+        if best is None or best > allow:
+            return [("C17.clean_same_function", dict(T=T, H=H, deviation_in_T=best, kept=[[float(u), float(v)] for u, v in zip(rx, ry)]))]
+    return []
+
+
 def point_seg_dist(p, a, b):
     ax, ay = a; bx, by = b; px, py = p
     dx, dy = bx - ax, by - ay
@@ -244,6 +268,26 @@ def check(prop, tier, run: Run, replay_case=None):
                     run.drift.append(f"clean_composite_curve differs from spec on {curve}")
                 if len(case["result"]) < len(curve):
                     nontriv.add(json.dumps(curve))
+                # near-collinear variants: every interior point the specification removes is moved off its chord by
+                # 5e-6 K (five times the tolerance: must not be lost) and by 2e-7 K (may be lost), in kW-, 1/3- and MW-scale enthalpy units
+                xs_ = [p[0] for p in curve]
+                nf = [i for i in range(len(curve)) if not all(xs_[j] == xs_[0] for j in range(i + 1)) and not all(xs_[j] == xs_[-1] for j in range(i, len(curve)))]
+                kept_pts = {tuple(p) for p in case["result"]}
+                if nf:
+                    lo_, hi_ = max(min(nf) - 1, 0), min(max(nf) + 1, len(curve) - 1)
+                    for j in range(lo_ + 1, hi_):
+                        if tuple(curve[j]) in kept_pts:
+                            continue
+                        for delta in (5e-6, -5e-6, 2e-7):
+                            for c2 in (50.0, 1.0 / 3.0, 1e-3):
+                                pts = [(a + b * p[1] + (delta if i == j else 0.0), c2 * p[0]) for i, p in enumerate(curve)]
+                                try:
+                                    ry2, rx2 = clean_composite_curve([t for t, _ in pts], [h for _, h in pts])
+                                except Exception as e:
+                                    run.violation("C17.clean_raises", case, dict(exc=repr(e)[:200], perturbed=j, delta=delta, c=c2)); continue
+                                run.cov["evaluations"] += 1
+                                for clause, d in judge_clean_T(pts, ry2, rx2, lo_, hi_):
+                                    run.violation(clause, dict(case, perturbed=j, delta=delta, a=a, b=b, c=c2), d)
             else:
                 s = 1.0 if ci % 2 == 0 else 0.37
                 eps = math.sqrt(case["eps2"]) * s
